@@ -197,8 +197,8 @@ theorem inG_unique (n : SNode) (g g' : String) (h1 : inG g n = true) (h2 : inG g
   injection h2 with h2
   injection h2
 
-theorem inv_mergeNodes (s : Store) (g nid g2 : String) (pol : Option (List (String × Policy))) (h : Inv s)
-    (hg : g ≠ g2) : Inv (mergeNodes g nid g2 pol s).2 := by
+theorem inv_mergeNodes (s : Store) (g nid g2 : String) (pol : Option (List (String × Policy))) (h : Inv s) :
+    Inv (mergeNodes g nid g2 pol s).2 := by
   unfold mergeNodes
   split
   · exact h
@@ -206,23 +206,19 @@ theorem inv_mergeNodes (s : Store) (g nid g2 : String) (pol : Option (List (Stri
     split
     · exact h
     · rename_i v hv
-      obtain ⟨nu, hnu, eu, gu, _⟩ := findNode_ok s g nid u hu
-      obtain ⟨nv, hnv, ev, gv, _⟩ := findNode_ok s g2 nid v hv
-      have huv : u ≠ v := by
-        intro e
-        have : nu = nv := eq_of_nodup_map (·.iid) s.nodes h.1 nu hnu nv hnv (by simp [eu, ev, e])
-        subst this
-        exact hg (inG_unique nu g g2 gu gv)
-      have hc := inv_contract s u v h (findNode_idIn s g nid u hu) huv
       split
-      · split
-        · exact inv_updNode _ _ _ hc
-        · split
-          · exact h
-          · exact inv_updNode _ _ _ hc
       · exact h
+      · rename_i huv
+        have hc := inv_contract s u v h (findNode_idIn s g nid u hu) huv
+        split
+        · split
+          · exact inv_updNode _ _ _ hc
+          · split
+            · exact h
+            · exact inv_updNode _ _ _ hc
+        · exact h
 
-theorem inv_step (op : Op) (s : Store) (h : Inv s) (hwf : op.WF = true) : Inv (step op s).2 := by
+theorem inv_step (op : Op) (s : Store) (h : Inv s) : Inv (step op s).2 := by
   cases op with
   | addNode g nid label props => exact inv_addNode s g nid label props h
   | deleteNode g nid => exact inv_deleteNode s g nid h
@@ -235,10 +231,11 @@ theorem inv_step (op : Op) (s : Store) (h : Inv s) (hwf : op.WF = true) : Inv (s
   | unsetLinkProperty g a b kind k => exact inv_unsetLinkProperty s g a b kind k h
   | updateLinkProperties g a b kind props => exact inv_updateLinkProperties s g a b kind props h
   | deleteGraph g => exact inv_delGraphNl s g h
-  | addGraph g ig => exact inv_addGraph s g ig h hwf
-  | addGraphDirect g ig => exact inv_addGraphDirect s g ig h hwf
+  | addGraph g ig => exact inv_addGraph s g ig.close h ig.close_WF
+  | addGraphDirect g ig => exact inv_addGraphDirect s g ig.close h ig.close_WF
+  | delAllGraphs => exact ⟨by simp [step, delAllGraphs], by simp [step, delAllGraphs], by simp [step, delAllGraphs]⟩
   | clone g g2 => exact inv_cloneGraph s g g2 h
-  | mergeNodes g nid g2 pol => exact inv_mergeNodes s g nid g2 pol h (by simpa [Op.WF] using hwf)
+  | mergeNodes g nid g2 pol => exact inv_mergeNodes s g nid g2 pol h
   | getNodeProperties g nid =>
     simp only [step, getNodeProperties]
     refine withNode_inv s g nid _ h (fun i _ => ?_)
